@@ -295,7 +295,9 @@ def touchedReq (m : Mon) (cc : World.CliConf) (sc : World.SrvConf) (t : UInt8) :
   (if m.cfg.opts.ttlType.2 = 256 then t.toNat = m.cfg.opts.ttlType.1 else t = 26)
 
 def frameOk (m : Mon) (cc : World.CliConf) (sc : World.SrvConf) (inp out : Bytes) : Bool :=
-  let f := fun (p : UInt8 × Bytes) => !touchedReq m cc sc p.1
+  -- (an Access-Request gets its Message-Authenticator through `ensuremsgauthfront`, whose removal list {80} is searched with strchr:
+  --  the reserved attribute type 0 matches the terminator and goes too - modelled as such, DESIGN §8 "observed")
+  let f := fun (p : UInt8 × Bytes) => !touchedReq m cc sc p.1 && !(p.1 = 0 && codeOf inp = 1)
   (attrsOf out).filter f == (attrsOf inp).filter f
 
 /-- (server, unanswered count, status-server mode) from the digest -/
@@ -433,6 +435,15 @@ def monOp0 (m : Mon) (op : String) (args : List String) (impl : List String) (tr
           -- C05: only Access-, Accounting-, Status-Server, Disconnect- and CoA-Requests are ever answered or forwarded
           else if (!fwdToks.isEmpty || qgrew) && ![1, 4, 12, 40, 43].contains (codeOf pkt).toNat then
             "bad C05:packet-of-an-unsupported-code-forwarded-or-answered"
+          -- C05: with VerifyEAP an Access-Request whose EAP-Message attributes - all of them, wherever they stand in the packet - do not
+          -- add up to the length in the EAP header (or whose first one cannot hold a header, or one of which is empty) is never forwarded
+          else if !fwdToks.isEmpty && m.cfg.opts.verifyEap && codeOf pkt = 1 &&
+                  (let eaps := ((attrsOf pkt).filter (·.1 = 79)).map (·.2)
+                   match eaps with
+                   | [] => false
+                   | first :: _ => first.length < 4 || eaps.any (·.isEmpty) ||
+                                   beVal ((first.drop 2).take 2) != (eaps.map (·.length)).foldl (· + ·) 0) then
+            "bad C05:access-request-with-inconsistent-eap-lengths-forwarded"
           else if othersGrew then "bad C02:reply-queued-for-another-client"
           else if fwdToks.length > 1 then "bad C01:queued-more-than-once"
           else if ret0 && (wellFormedLoose pkt && authChecksPass H pkt (some cc.secret) none && !expectMacInvalid H pkt (some cc.secret) none) then
